@@ -226,6 +226,7 @@ Record macentry := {
   me_hosts : list bytes;   (* MACEntry.HostList (host keys, in slice order) *)
   me_online : bool;
   me_router : bool;
+  me_captured : bool;      (* MACEntry.Captured *)
   me_ip4 : bytes;          (* MACEntry.IP4 (netip value) *)
   me_offer : bytes;        (* MACEntry.IP4Offer (netip value; [] = invalid) *)
   me_names : list nameent
@@ -246,7 +247,8 @@ Record lease := {
   l_key : rv;              (* map key string(clientID) *)
   l_kval : bytes;          (* its value at insertion (Go map keys are immutable strings) *)
   l_cid : rv; l_mac : rv; l_xid : rv; l_name : rv;
-  l_ip : bytes             (* Lease.Addr.IP (allocated by the server: oracle) *)
+  l_ip : bytes;            (* Lease.Addr.IP (allocated by the server: oracle) *)
+  l_sub : bool             (* Lease.subnet: false = net1 (home), true = net2 (captured hosts) *)
 }.
 
 (* handlers/icmp_spoofer router table *)
@@ -312,22 +314,25 @@ Definition set_mcache (st : state) (x : list mcache) : state :=
      st_routers := st_routers st; st_dns := st_dns st; st_mcache := x |}.
 
 Definition me_with_hosts (e : macentry) (x : list bytes) : macentry :=
-  {| me_id := me_id e; me_mac := me_mac e; me_hosts := x; me_online := me_online e; me_router := me_router e;
+  {| me_id := me_id e; me_mac := me_mac e; me_hosts := x; me_online := me_online e; me_router := me_router e; me_captured := me_captured e;
      me_ip4 := me_ip4 e; me_offer := me_offer e; me_names := me_names e |}.
 Definition me_with_online (e : macentry) (x : bool) : macentry :=
-  {| me_id := me_id e; me_mac := me_mac e; me_hosts := me_hosts e; me_online := x; me_router := me_router e;
+  {| me_id := me_id e; me_mac := me_mac e; me_hosts := me_hosts e; me_online := x; me_router := me_router e; me_captured := me_captured e;
      me_ip4 := me_ip4 e; me_offer := me_offer e; me_names := me_names e |}.
 Definition me_with_router (e : macentry) (x : bool) : macentry :=
-  {| me_id := me_id e; me_mac := me_mac e; me_hosts := me_hosts e; me_online := me_online e; me_router := x;
+  {| me_id := me_id e; me_mac := me_mac e; me_hosts := me_hosts e; me_online := me_online e; me_router := x; me_captured := me_captured e;
      me_ip4 := me_ip4 e; me_offer := me_offer e; me_names := me_names e |}.
 Definition me_with_ip4 (e : macentry) (x : bytes) : macentry :=
-  {| me_id := me_id e; me_mac := me_mac e; me_hosts := me_hosts e; me_online := me_online e; me_router := me_router e;
+  {| me_id := me_id e; me_mac := me_mac e; me_hosts := me_hosts e; me_online := me_online e; me_router := me_router e; me_captured := me_captured e;
      me_ip4 := x; me_offer := me_offer e; me_names := me_names e |}.
 Definition me_with_offer (e : macentry) (x : bytes) : macentry :=
-  {| me_id := me_id e; me_mac := me_mac e; me_hosts := me_hosts e; me_online := me_online e; me_router := me_router e;
+  {| me_id := me_id e; me_mac := me_mac e; me_hosts := me_hosts e; me_online := me_online e; me_router := me_router e; me_captured := me_captured e;
      me_ip4 := me_ip4 e; me_offer := x; me_names := me_names e |}.
+Definition me_with_captured (e : macentry) (x : bool) : macentry :=
+  {| me_id := me_id e; me_mac := me_mac e; me_hosts := me_hosts e; me_online := me_online e; me_router := me_router e; me_captured := x;
+     me_ip4 := me_ip4 e; me_offer := me_offer e; me_names := me_names e |}.
 Definition me_with_names (e : macentry) (x : list nameent) : macentry :=
-  {| me_id := me_id e; me_mac := me_mac e; me_hosts := me_hosts e; me_online := me_online e; me_router := me_router e;
+  {| me_id := me_id e; me_mac := me_mac e; me_hosts := me_hosts e; me_online := me_online e; me_router := me_router e; me_captured := me_captured e;
      me_ip4 := me_ip4 e; me_offer := me_offer e; me_names := x |}.
 
 Definition h_with_online (h : host) (x : bool) : host :=
@@ -356,7 +361,7 @@ Definition mac_find_or_create (cx : ctx) (x : src) (st : state) : state * macent
   | Some e => (st, e)
   | None =>
       let e := {| me_id := st_next st; me_mac := retain RP_mactable_mac cx x; me_hosts := [];
-                  me_online := false; me_router := false; me_ip4 := [0;0;0;0]; me_offer := []; me_names := names0 |} in
+                  me_online := false; me_router := false; me_captured := false; me_ip4 := [0;0;0;0]; me_offer := []; me_names := names0 |} in
       (set_next (set_macs st (st_macs st ++ [e])) (S (st_next st)), e)
   end.
 
@@ -467,6 +472,18 @@ Definition set_dhcpv4_offer (cx : ctx) (xmac : src) (ip : bytes) (n : nameent) (
   let '(st1, e) := mac_find_or_create cx xmac st in
   upd_me (me_id e) (fun e' => me_with_names (me_with_offer e' ip) (set_nth NM_DHCP n (me_names e'))) st1.
 
+(* Session.Capture(mac) / Release(mac) / IsCaptured(mac) *)
+Definition capture (cx : ctx) (xmac : src) (st : state) : state :=
+  let '(st1, e) := mac_find_or_create cx xmac st in
+  if me_captured e || me_router e then st1 else upd_me (me_id e) (fun e' => me_with_captured e' true) st1.
+Definition release (cx : ctx) (mac : bytes) (st : state) : state :=
+  match find_mac cx mac (st_macs st) with
+  | Some e => upd_me (me_id e) (fun e' => me_with_captured e' false) st
+  | None => st
+  end.
+Definition is_captured (cx : ctx) (mac : bytes) (st : state) : bool :=
+  match find_mac cx mac (st_macs st) with Some e => me_captured e | None => false end.
+
 (* ---------------------------------------------------------------- *)
 (* Output items of a call *)
 Open Scope string_scope.
@@ -483,7 +500,7 @@ Definition notification (cx : ctx) (h : host) (e : macentry) : string :=
                             get_name NM_LLMNR (h_names h); get_name NM_NBNS (me_names e)] ++ ")".
 
 Definition dummy_me : macentry :=
-  {| me_id := 0; me_mac := Owned []; me_hosts := []; me_online := false; me_router := false; me_ip4 := []; me_offer := []; me_names := names0 |}.
+  {| me_id := 0; me_mac := Owned []; me_hosts := []; me_online := false; me_router := false; me_captured := false; me_ip4 := []; me_offer := []; me_names := names0 |}.
 Definition me_of (h : host) (st : state) : macentry :=
   match me_by_id (h_me h) (st_macs st) with Some e => e | None => dummy_me end.
 
@@ -609,23 +626,25 @@ Fixpoint join_labels (cx : ctx) (ls : list loc) : bytes :=
 Definition find_lease (key : bytes) (ls : list lease) : option lease :=
   find (fun l => beqb (l_kval l) key) ls.
 Definition l_with (l : lease) (xid name : rv) (ip : bytes) : lease :=
-  {| l_key := l_key l; l_kval := l_kval l; l_cid := l_cid l; l_mac := l_mac l; l_xid := xid; l_name := name; l_ip := ip |}.
+  {| l_key := l_key l; l_kval := l_kval l; l_cid := l_cid l; l_mac := l_mac l; l_xid := xid; l_name := name; l_ip := ip; l_sub := l_sub l |}.
 Definition upd_lease (key : bytes) (f : lease -> lease) (st : state) : state :=
   set_leases st (map (fun l => if beqb (l_kval l) key then f l else l) (st_leases st)).
 
-(* Handler.findOrCreate(clientID, mac, name); no host is captured in the modelled histories: subnet = net1 *)
+(* Handler.findOrCreate(clientID, mac, name): subnet = net2 iff the MAC is captured; a lease is kept only if its
+   subnet is that one (pointer identity, /repo c9f204c) and its MAC matches *)
 Definition lease_find_or_create (cx : ctx) (xcid xmac : src) (xname : src) (st : state) : state :=
   let key := src_val cx xcid in
   let name := src_val cx xname in
   let create (st0 : state) :=
       let l := {| l_key := retain RP_lease_key cx xcid; l_kval := key; l_cid := retain RP_lease_cid cx xcid;
-                  l_mac := retain RP_lease_mac cx xmac; l_xid := Owned []; l_name := retain RP_lease_name cx xname; l_ip := [] |} in
+                  l_mac := retain RP_lease_mac cx xmac; l_xid := Owned []; l_name := retain RP_lease_name cx xname; l_ip := [];
+                  l_sub := is_captured cx (src_val cx xmac) st |} in
       set_leases st0 (remove_first (fun l' => beqb (l_kval l') key) (st_leases st0) ++ [l]) in
   match find_lease key (st_leases st) with
   | Some l =>
       let st1 := if negb (is_nil name) && negb (beqb (rd cx (l_name l)) name)
                  then upd_lease key (fun l' => l_with l' (l_xid l') (retain RP_lease_name cx xname) (l_ip l')) st else st in
-      if beqb (rd cx (l_mac l)) (src_val cx xmac) then st1 else create st1
+      if Bool.eqb (l_sub l) (is_captured cx (src_val cx xmac) st) && beqb (rd cx (l_mac l)) (src_val cx xmac) then st1 else create st1
   | None => create st
   end.
 
@@ -702,6 +721,10 @@ Definition dhcp_step0 (cx : ctx) (m : dhcpmsg) (st : state) : state * list strin
                   else [] in
       (st2, show_reply cx "6" [0;0;0;0] :: decl)
     else (st2, [])
+  else if (dm_type m =? 4) || (dm_type m =? 7) then
+    (* handleDecline / handleRelease: findOrCreate(clientID, chaddr, ""), no reply; what they do to the lease's
+       state and address is the oracle's (dm_lip) *)
+    (lease_find_or_create cx xcid xmac (Fresh []) st, [])
   else if dm_type m =? 2 then
     (* processClientPacket: an OFFER of another server seen on the client port: forceDecline with copies of
        the packet's client id, chaddr, yiaddr (locator dm_reqip) and xid *)
@@ -716,7 +739,9 @@ Definition dhcp_step (cx : ctx) (m : dhcpmsg) (st : state) : state * list string
 (* Handler.StartHunt(addr): forceRelease(lease.ClientID, gw, lease.Addr.MAC, lease.Addr.IP, nil); xid is random *)
 Definition hunt_step (cx : ctx) (ip : bytes) (st : state) : list string :=
   match find (fun l => beqb (l_ip l) ip) (st_leases st) with
-  | Some l => (* sendDeclineReleasePacket is called with nil options: the release carries no client id *)
+  | Some l => (* only for a lease of the home subnet (lease.subnet.Stage != StageRedirected);
+                 sendDeclineReleasePacket is called with nil options: the release carries no client id *)
+              if l_sub l then [] else
               [show_decl cx "7" (Owned []) (retain RP_decline_mac cx (Held (l_mac l))) (Owned []) ip]
   | None => []
   end.
@@ -898,10 +923,11 @@ Open Scope string_scope.
 Definition show_host (cx : ctx) (h : host) : string :=
   hx (rd cx (h_ip h)) ++ "=" ++ hx (rd cx (h_mac h)) ++ ":" ++ show_bool (h_online h) ++ ":" ++ show_names cx (h_names h).
 Definition show_mac (cx : ctx) (e : macentry) : string :=
-  hx (rd cx (me_mac e)) ++ "[" ++ join "+" (map hx (me_hosts e)) ++ "]" ++ show_bool (me_online e) ++ ":" ++ hx (me_offer e)
+  hx (rd cx (me_mac e)) ++ "[" ++ join "+" (map hx (me_hosts e)) ++ "]" ++ show_bool (me_online e) ++ show_bool (me_captured e) ++ ":" ++ hx (me_offer e)
   ++ ":" ++ show_names cx (me_names e).
 Definition show_lease (cx : ctx) (l : lease) : string :=
-  hx (rd cx (l_key l)) ++ "=" ++ hx (rd cx (l_cid l)) ++ "/" ++ hx (rd cx (l_mac l)) ++ "/" ++ hx (rd cx (l_xid l)) ++ "/" ++ hx (rd cx (l_name l)).
+  hx (rd cx (l_key l)) ++ "=" ++ hx (rd cx (l_cid l)) ++ "/" ++ hx (rd cx (l_mac l)) ++ "/" ++ hx (rd cx (l_xid l)) ++ "/" ++ hx (rd cx (l_name l))
+  ++ "/" ++ show_bool (l_sub l).
 Definition show_rvs (cx : ctx) (l : list rv) : string := join "+" (map (fun v => hx (rd cx v)) l).
 Definition show_router (cx : ctx) (r : router) : string :=
   hx (rd cx (r_ip r)) ++ "=" ++ hx (rd cx (r_mac r)) ++ "/" ++ hx (rd cx (r_slla r)) ++ "/" ++ show_rvs cx (r_prefixes r)
@@ -913,13 +939,17 @@ Definition show_dns (cx : ctx) (e : dnsent) : string :=
   ++ join "+" (map (show_rec cx) (rec_sorted (d_aaaa e))) ++ "/" ++ join "+" (map (show_rec cx) (rec_sorted (d_cname e)))
   ++ "/" ++ join "+" (map (show_rec cx) (rec_sorted (d_ptr e))) ++ "}".
 
+Definition show_mcache (cx : ctx) (c : mcache) : string :=
+  hx (rd cx (mc_key c)) ++ "=" ++ join "+" (map (fun x => hx (rd cx (fst (fst x))) ++ "." ++ hx (rd cx (snd (fst x))) ++ "." ++ hx (rd cx (snd x))) (mc_ents c)).
+
 Definition dump (s : store) (st : state) : string :=
   let cx := nocx s in
   "H:" ++ join "," (map (show_host cx) (sort_by (fun a b => bleb (h_key a) (h_key b)) (st_hosts st)))
   ++ ";M:" ++ join "," (map (show_mac cx) (st_macs st))
   ++ ";L:" ++ join "," (map (show_lease cx) (sort_by (fun a b => bleb (l_kval a) (l_kval b)) (st_leases st)))
   ++ ";R:" ++ join "," (map (show_router cx) (sort_by (fun a b => bleb (r_key a) (r_key b)) (st_routers st)))
-  ++ ";D:" ++ join "," (map (show_dns cx) (sort_by (fun a b => bleb (d_key a) (d_key b)) (st_dns st))).
+  ++ ";D:" ++ join "," (map (show_dns cx) (sort_by (fun a b => bleb (d_key a) (d_key b)) (st_dns st)))
+  ++ ";C:" ++ join "," (map (show_mcache cx) (sort_by (fun a b => bleb (mc_kval a) (mc_kval b)) (st_mcache st))).
 
 (* probe sent by purge for a host that is going offline: Ethernet destination and target address *)
 Definition show_probe (cx : ctx) (h : host) : string :=
@@ -967,7 +997,14 @@ Inductive pkind : Type :=
 | KMdns (m : mdnsmsg)
 | KLlmnr (m : mdnsmsg)
 | KNbns (l : option loc)
-| KSsdp (model manuf os : bytes).
+| KSsdp (model manuf os : bytes)
+| KCapture                          (* the application calls Session.Capture(frame.SrcAddr.MAC) *)
+| KRelease                          (* ... Session.Release(frame.SrcAddr.MAC) *)
+| KApiUpdate (ip : loc) (name : loc)   (* ... Session.DHCPv4Update(frame.SrcAddr.MAC, <address bytes of the packet>, <name bytes>) *)
+| KApiOffer (ip : loc) (name : loc).   (* ... Session.SetDHCPv4IPOffer(frame.SrcAddr.MAC, ..., ...) *)
+
+Definition api_name (cx : ctx) (l : loc) : nameent :=
+  {| n_name := retain RP_name_entry cx (FrameSl (fst l) (snd l)); n_model := Owned []; n_manuf := Owned []; n_os := Owned [] |}.
 
 (* receiving a frame in buffer [buf]: Parse, then the handler, then Notify *)
 Definition rstep (c : cfg) (s : store) (buf : nat) (frame : bytes) (k : pkind) (st : state) : state * string :=
@@ -983,6 +1020,10 @@ Definition rstep (c : cfg) (s : store) (buf : nat) (frame : bytes) (k : pkind) (
     | KLlmnr m => (mdns_step cx NM_LLMNR m fhost st1, [])
     | KNbns l => (nbns_step cx l fhost st1, [])
     | KSsdp a b o => (ssdp_step cx a b o fhost st1, [])
+    | KCapture => (capture cx (FrameSl 6 6) st1, [])
+    | KRelease => (release cx (sub frame 6 6) st1, [])
+    | KApiUpdate ip name => (dhcpv4_update cx (FrameSl 6 6) (lval cx ip) (api_name cx name) st1, [])
+    | KApiOffer ip name => (set_dhcpv4_offer cx (FrameSl 6 6) (lval cx ip) (api_name cx name) st1, [])
     end in
   (* Session.Notify *)
   let '(st3, nouts) :=
